@@ -765,11 +765,13 @@ class Runner:
                 try:
                     try:
                         value = future.result()
-                    except Exception as e:
+                    except (Exception, asyncio.CancelledError) as e:
                         # Save the exception for later. It's important that
                         # gen.throw() not be called inside this try/except block
                         # because that makes sys.exc_info behave unexpectedly.
-                        exc: Exception | None = e
+                        # A cancelled future is delivered as CancelledError,
+                        # as "await" does in a native coroutine.
+                        exc: BaseException | None = e
                     else:
                         exc = None
                     finally:
@@ -793,7 +795,7 @@ class Runner:
                     )
                     self.result_future = None  # type: ignore
                     return
-                except Exception:
+                except (Exception, asyncio.CancelledError):
                     self.finished = True
                     self.future = _null_future
                     future_set_exc_info(self.result_future, sys.exc_info())
